@@ -62,6 +62,10 @@ CHECKS = {
   "runtime monitoring (black box): the real -race regatta binary (leader, and follower forwarding to it) driven with generated valid / single-rule-violating requests and raw mutated wire bytes; independent validator for the expected status class; full table dumps after every request compared with the reference model; process liveness, stderr (panic / fatal / race / checkptr) and clean SIGTERM exit observed",
   "A fixed catalogue (every documented rule per method, each also nested in executed and non-executed transaction branches, boundary-size keys/values, hostile table names, every wire mutation per method) and a seeded request stream are sent; refused requests must leave every dump unchanged, accepted ones must change it exactly as the model says, and the serving process must stay alive.",
   "Raw wire mutants are judged only on liveness and refused => unchanged; a pebble assertion that exists only in -race builds (inverted read bounds reaching an sstable) and race reports inside regatta's copy of iter.Pull are counted, not judged."),
+ "C14": ("exploration",
+  "runtime monitoring: seeded catalogue histories on a real engine (1 and 3 nodes) judged online against a catalogue model with per-table content models; racing creations; reconciliation observed through the running-shard list; pure diff observed through the export shim; process death supervised",
+  "create/delete/restore/list/lookup over 3 names interleaved with data operations: success conditions, strictly growing ids (also across delete/recreate and restore), emptiness of (re)created tables, exact restored content, cross-table isolation (all tables dumped after every operation), running user shards == catalogued shards after a reconciliation pass; of racing creations of one name at most one succeeds and ids are never assigned twice.",
+  "Reconciliation is triggered through the verif export shim (the periodic loop fires every 30 s); user shard ids > 10000; data-directory clean-up after the 5-minute grace period is not exercised."),
 }
 
 NOT_YET = {}
